@@ -257,6 +257,23 @@ def check_case(run, members, fbp, extra_bp, exit_on_exception):
                         port.pop(2)
                         judge_solve([b], "solve after pop(2)")
                         run.cls("oneshot-and-pop2-cycle")
+                        # two levels opened in one go, closed one by one
+                        try:
+                            port.push(2)
+                            port.add_assertion(e2)
+                            judge_solve([b, b2], "solve after push(2)+assert")
+                            port.pop()
+                            if list(port.assertions) != [f]:
+                                run.fail({"subcheck": "portfolio:assertions-after-pop"}, case,
+                                         "push(2), assert, pop(1): the assertions are %s" % list(port.assertions))
+                            port.add_assertion(ne2)
+                            judge_solve([b, ("NOT", (), (b2,))], "solve at level 1 of a push(2)")
+                            port.pop()
+                            judge_solve([b], "solve after push(2) closed by two pops")
+                        except Exception as ex:
+                            run.fail({"subcheck": "portfolio:push-pop-raised", "exc": type(ex).__name__}, case,
+                                     "push(2) / pop / pop raised %s: %s" % (type(ex).__name__, ex))
+                        run.cls("push2-pop-pop-cycle")
                         if all(m_ == "ok" for (_, m_) in members) and r3 is True:
                             # a one-shot query on which EVERY member dies (the processes exit at check-sat): it must
                             # raise, and the query must not stay asserted for the next solve
@@ -381,6 +398,7 @@ def main():
     chk.floor("model-checked", 15)
     chk.floor("full-cycle", 15)
     chk.floor("oneshot-and-pop2-cycle", 10)
+    chk.floor("push2-pop-pop-cycle", 10)
     chk.floor("slow-survivor", 3)
     return chk.finish()
 
